@@ -785,20 +785,24 @@ def isVheaField : Field → Bool
   | .vhea_ascent | .vhea_descent | .vhea_lineGap | .vhea_caretSlopeRise | .vhea_caretSlopeRun | .vhea_caretOffset => true
   | _ => false
 
+/-- the two situations in which the temporary compile of InfoCompiler does not build a table that the
+    corresponding setupTable override then wants to merge: vertical metrics given for a font without vhea
+    (`if self.vertical: self.setupTable_vhea()` with "vhea" not among the tables of the original font), and a
+    font with a gasp table whose merged info has no gasp records left -/
+def missingTable (merged : Info) (env : Env) (baseVertical baseGasp : Bool) : Bool :=
+  (isVertical (getV merged env) && !baseVertical) || (baseGasp && !(merged .openTypeGaspRangeRecords).truthy)
+
 /-- InfoCompiler(otf, ufo, over).compile() on a font compiled from `base` (in memory): the temporary compile
     builds only the info tables the original font has; a field it produced (value not None) replaces the
-    original one; everything else stays.  `_set_attrs` indexes the temporary font unconditionally, so a table
-    the temporary compile skipped is a KeyError. -/
+    original one; everything else stays.  `_set_attrs` returns at once when the temporary font has no such
+    table (`if tag not in self.otf: return`): the table of the original font is then left as it is. -/
 def infoCompile (base over : Info) (env envBase : Env) (ctx : Ctx) (baseVertical baseGasp : Bool) : R Out := do
   let o ← compile base envBase ctx
   let merged := mergeInfo base over
   let m ← compile merged env { ctx with otf := false, glyf := false, cffWritten := false }
-  -- `if self.vertical: self.setupTable_vhea()` with "vhea" not among the tables of the original font
-  if isVertical (getV merged env) ∧ !baseVertical then throw .keyError
-  -- `if "gasp" in self.tables: self.setupTable_gasp()` and the merged info has no gasp records
-  if baseGasp ∧ !(merged .openTypeGaspRangeRecords).truthy then throw .keyError
   let pick (f : Field) : FVal :=
-    if f = .gasp then (if baseGasp then m.fields f else o.fields f)
+    if f = .gasp then
+      (if baseGasp ∧ (merged .openTypeGaspRangeRecords).truthy then m.fields f else o.fields f)
     else if isVheaField f then (if baseVertical ∧ isVertical (getV merged env) then m.fields f else o.fields f)
     else if infoCompilerField f then
       match m.fields f with
@@ -807,5 +811,14 @@ def infoCompile (base over : Info) (env envBase : Env) (ctx : Ctx) (baseVertical
       | v => v
     else o.fields f
   pure { fields := pick, names := namesUpdate o.names m.names }
+
+/-- history: `_set_attrs` BEFORE the repair indexed the temporary font unconditionally, so a table the temporary
+    compile had skipped was a KeyError -/
+def infoCompileOld (base over : Info) (env envBase : Env) (ctx : Ctx) (baseVertical baseGasp : Bool) : R Out :=
+  if missingTable (mergeInfo base over) env baseVertical baseGasp then
+    (do let _ ← compile base envBase ctx
+        let _ ← compile (mergeInfo base over) env { ctx with otf := false, glyf := false, cffWritten := false }
+        throw .keyError)
+  else infoCompile base over env envBase ctx baseVertical baseGasp
 
 end Ufo2ft.C16
